@@ -33,7 +33,7 @@ MIN = {'quick': {'distinct': 600,
                  'strata': {'lex_in_grammar': 200, 'lopar refused': 50,
                             'latin-1': 100, 'binarized': 300,
                             'cli rcg as input': 5, 'ambiguous word': 300,
-                            'cli binarized markov': 10}},
+                            'cli binarized markov': 10, 'fan-out >= 10': 30}},
        'thorough': {'distinct': 30000, 'hooks': {'cli.grammar': 1200}}}
 
 
@@ -88,6 +88,10 @@ def make_bank(rng, cont, enc):
             t = copy.deepcopy(rng.choice(bank))
             t['sid'] = j + 1
             bank.append(t)
+            continue
+        if not cont and rng.random() < 0.04:
+            bank.append(gen.comb_tree(rng, rng.randint(10, 12), pools,
+                                      sid=j + 1))
             continue
         n = rng.randint(1, 10)
         bank.append(gen.tree(rng, n, pools, max_arity=rng.choice([2, 3, 4]),
@@ -274,6 +278,10 @@ def finish(ctx, case, counts, lex, disc):
         ctx.stratum('lex_in_grammar')
     if case['enc'] != 'utf-8':
         ctx.stratum(case['enc'])
+    if any(len(l) >= 10 or any(sum(1 for arg in l for (i, _) in arg if i == k)
+                               >= 10 for k in range(len(f) - 1))
+           for (f, l) in counts):
+        ctx.stratum('fan-out >= 10')
     words = Counter(w for (w, t) in lex)
     if any(v > 1 for v in words.values()):
         ctx.stratum('ambiguous word')
